@@ -41,6 +41,14 @@ def cases(tier, rng, dist):
         n = rng.randint(0, 7)
         tab = [rng.choice(vals) for _ in range(n + 1)]
         yield {"lr": "table", "table": tab, "alpha": "1/2", "beta": "1/4", "xs": [rng.randint(0, 3) for _ in range(n)], "ro": rng.random() < 0.8}
+    # ratios of exactly +inf (the H0 likelihood is 0 or underflows) are at least every threshold: H0 is rejected
+    for _ in range(60 if tier == "quick" else 600):
+        n = rng.randint(1, 7)
+        tab = [rng.choice(vals + ["inf", "inf"]) for _ in range(n + 1)]
+        tab[rng.randint(1, n)] = "inf"
+        yield {"lr": "table", "table": tab, "alpha": "1/2", "beta": "1/4", "xs": [rng.randint(0, 3) for _ in range(n)], "ro": rng.random() < 0.7}
+    for k in range(4 if tier == "quick" else 12):
+        yield {"lr": "bern", "po": ["1/10", "1/100"][k % 2], "pa": "1/2", "alpha": "1/20", "beta": "1/20", "xs": [1] * (400 + 50 * k), "ro": False, "dtype": ["list", "int64"][k % 2]}
 
 
 def run(c):
@@ -50,7 +58,7 @@ def run(c):
         def lr(x):
             log.append(list(x)); return bernoulli_lh_ratio(x, po, pa)
     else:
-        tab = [float(Fraction(v)) for v in c["table"]]
+        tab = [float("inf") if v == "inf" else float(Fraction(v)) for v in c["table"]]
         def lr(x):
             log.append(list(x)); return tab[len(x)]
     xs = list(c["xs"])
@@ -71,15 +79,17 @@ def spec(c):
         po, pa = Fraction(c["po"]), Fraction(c["pa"])
         def lr(x):
             s = sum(x); f = len(x) - s
-            return (pa**s * (1 - pa)**f) / (po**s * (1 - po)**f)
+            den = po**s * (1 - po)**f
+            # the float likelihood under H0 underflows to 0 below 2^-1075: the ratio the library computes is then +inf
+            return (pa**s * (1 - pa)**f) / den if den >= Fraction(1, 2**1074) else float("inf")
     else:
-        tab = [Fraction(v) for v in c["table"]]
+        tab = [float("inf") if v == "inf" else Fraction(v) for v in c["table"]]
         lr = lambda x: tab[len(x)]
     xs = c["xs"]; log = []; near = False
     def chk(t):
         nonlocal near
         for th in (A, B):
-            if t != th and abs(t - th) <= Fraction(1, 10**8) * th:
+            if t != th and t != float("inf") and abs(t - th) <= Fraction(1, 10**8) * th:
                 near = True
     if c["ro"]:
         ts = Fraction(1)
@@ -103,6 +113,10 @@ def oracle(c, o):
         return {"why": f"likelihood ratio evaluated on {o['log']}, Wald's rule examines {log}", "cls": "sprt:prefixes"}
     if o["concl"] != concl:
         return {"why": f"decision {o['concl']} but ratio {float(ts)} with thresholds demands {concl}", "cls": "sprt:decision"}
+    if ts == float("inf") or o["ts"] == float("inf"):
+        if o["ts"] != ts:
+            return {"why": f"reported ratio {o['ts']} expected {ts}", "cls": "sprt:ratio"}
+        return None
     if abs(Fraction(o["ts"]) - ts) > Fraction(1, 10**9) * (abs(ts) + 1):
         return {"why": f"reported ratio {o['ts']} expected {float(ts)}", "cls": "sprt:ratio"}
     return None
@@ -114,6 +128,8 @@ def to_coq(c, o):
     if spec(c)[3]:
         SKIPPED[0] += 1
         return None
+    if o["ts"] == float("inf") or "inf" in c.get("table", []):
+        return None       # the model's ratios are rationals: infinite ratios are decided by the oracle only
     f = f"(Bern {cq(Fraction(c['po']))} {cq(Fraction(c['pa']))})" if c["lr"] == "bern" else f"(Table {clist([Fraction(v) for v in c['table']], cq)})"
     return (f"Case {f} {cq(Fraction(c['alpha']))} {cq(Fraction(c['beta']))} {clist(c['xs'])} {cbool(c['ro'])} "
             f"{cbool(o['concl'][0])} {cbool(o['concl'][1])} {cq(Fraction(o['ts']))} {clist(o['log'], lambda p: clist(p))}")
